@@ -232,6 +232,8 @@ class Run:
         if isinstance(f, bool):
             if not f:
                 raise Infeasible
+            if why:
+                self.assumed.append(why)
             return
         self.pc.append(f)
         self.solver.add(f)
